@@ -1,4 +1,5 @@
 import Lemmas.Errs
+import Lemmas.ErrsFmt
 /-! # C11 — error aggregation loses nothing and wrapping preserves identity
 
 Property theorems only.  The executable model is `Model/Errs.lean` (a heap of `*errs.Error` nodes; `Errs.append`,
@@ -114,7 +115,9 @@ theorem wrapped_errors_eq (h : Heap) (acc : Val) (args : List Val) (hwf : WF h)
     | none => rw [hh] at hx; cases hx
     | some m => rw [hh] at hx; simp at hx; rw [← hx]
 
-/-- `ErrorOrNil` is nil exactly for an empty error and otherwise the error itself -/
+/-- `ErrorOrNil` is nil exactly for an empty error and otherwise the error itself (like `wrap_nil`, `wrapTyped_nil`,
+    `wrap_idempotent` below: an unfolding of the three-line transcription — it carries the transcription, which the
+    correspondence run ties to the code, and nothing more) -/
 theorem error_or_nil (h : Heap) (id : Nat) :
     errorOrNil h (.ref id) = (if isEmpty h id then .nilIface else .ref id) ∧ errorOrNil h .typedNil = .nilIface := by
   simp [errorOrNil]
@@ -227,6 +230,142 @@ theorem append_items_alias (h : Heap) (id : Nat) (args : List Val) (hwf : WF h) 
     (hne : isEmpty h id = false) (hids : ∀ id', Val.ref id' ∈ args → id' < h.size) :
     resItems (append h (.ref id) args) = items h id ++ aliasItems h (tailOf h (fuelOf h) id) [] args :=
   Errs.append_items_alias h id args hwf hid hne hids
+
+/-! ## Rendering (third sentence of the property): what is logic in `%s` / `%q` / `%v` / `%+v`
+
+`Model/ErrsFmt.lean`: `fmtS`/`fmtQ`/`fmtV` are the renderings the driver prints for every `render` line; the recorded call
+stack of an error is an abstract token `Tok` (capturing function + serial number of the capture) in a table beside the
+heap.  The harness replaces every block of real frame lines of `%v` and `%+v` by the token it derives from the frames (top
+function outside the library ↦ creator, identity of the recorded stack ↦ serial) and compares with `fmtV`.  What stays
+implementation-only: the frames below the creating function, file names and line numbers, `errors.Is/As` through
+`Unwrap() []error`. -/
+
+/-- the token-carrying `Append` the driver runs computes the heap and the result of `append`: every theorem above is about
+    what the driver executes -/
+theorem appendF_is_append (s : FHeap) (f : Nat) (acc : Val) (args : List Val) :
+    (appendF s f acc args).1.h = (append s.h acc args).1 ∧ (appendF s f acc args).2 = ptrVal (append s.h acc args).2.1 :=
+  appendF_heap s f acc args
+
+/-- `Message()` / `%s`: a single error renders its message; an aggregate renders the header with the count and one `- `
+    line per contained error, in order (any well-formed heap, any error with a non-empty head) -/
+theorem message_of_items (h : Heap) (hwf : WF h) (id : Nat) (hid : id < h.size) (hne : isEmpty h id = false) :
+    fmtS h id =
+      match items h id with
+      | [it] => it.msg
+      | its => "Multiple (" ++ toString its.length ++ ") errors occurred:" ++
+          String.join (its.map (fun it => "\n- " ++ it.msg)) :=
+  message_eq_items h hwf id hid hne
+
+/-- hence the message of the result of `Append` lists exactly the non-nil non-empty errors of the arguments -/
+theorem append_message (h : Heap) (acc : Val) (args : List Val) (hwf : WF h)
+    (hids : ∀ id, Val.ref id ∈ acc :: args → id < h.size) (hna : NoAlias h acc args) (r : Nat)
+    (hr : (append h acc args).2.1 = some r) :
+    fmtS (append h acc args).1 r =
+      match argItems h acc ++ args.flatMap (argItems h) with
+      | [it] => it.msg
+      | its => "Multiple (" ++ toString its.length ++ ") errors occurred:" ++
+          String.join (its.map (fun it => "\n- " ++ it.msg)) := by
+  have D := append_spec args acc h hwf hids hna
+  rw [message_of_items _ D.wf r (D.rootLt r hr) (root_nonempty D r hr), ← D.items]
+  simp only [resItems, hr]
+
+/-- **a recorded stack is never changed**: every operation leaves the stack of every existing error as it is (so an older
+    error still names its own creating function, however many errors are created, copied or appended later) -/
+theorem stacks_never_change (s : FHeap) (f : Nat) (m pre : String) (c v acc : Val) (args : List Val) (k i : Nat)
+    (hi : i < s.T.size) :
+    tokOf (newF s f m).1.T i = tokOf s.T i ∧ tokOf (newWithCauseF s f m c).1.T i = tokOf s.T i ∧
+    tokOf (newEmptyF s).1.T i = tokOf s.T i ∧ tokOf (wrapF s f v).1.T i = tokOf s.T i ∧
+    tokOf (wrapTypedF s f v).1.T i = tokOf s.T i ∧ tokOf (cloneF s v pre).1.T i = tokOf s.T i ∧
+    tokOf (elemF s v k).1.T i = tokOf s.T i ∧ tokOf (appendF s f acc args).1.T i = tokOf s.T i := by
+  refine ⟨tokOf_push_left _ _ i hi, tokOf_push_left _ _ i hi, tokOf_push_left _ _ i hi, ?_, ?_, ?_, ?_, ?_⟩
+  · unfold wrapF; split
+    · rfl
+    · exact tokOf_push_left _ _ i hi
+  · unfold wrapTypedF; split
+    · rfl
+    · exact tokOf_push_left _ _ i hi
+  · unfold cloneF; split
+    · split
+      · rfl
+      · exact tokOf_push_left _ _ i hi
+    · rfl
+  · unfold elemF; split
+    · split
+      · rfl
+      · exact tokOf_push_left _ _ i hi
+    · rfl
+  · exact (appendFx_toks args acc s.h s.T f s.sites).2 i hi
+
+/-- **the stack names the function that created the error**: the constructors record a stack captured by the calling
+    function `f` for the new cell; `Wrap`/`WrapTyped` capture one exactly when they make a new error (unfoldings of the
+    transcription) -/
+theorem capture_records_creator (s : FHeap) (f : Nat) (m : String) (c v : Val) (hT : s.T.size = s.h.size) :
+    tokOf (newF s f m).1.T s.h.size = some { creator := f, site := s.sites } ∧
+    tokOf (newWithCauseF s f m c).1.T s.h.size = some { creator := f, site := s.sites } ∧
+    tokOf (newEmptyF s).1.T s.h.size = none ∧
+    (isNil v = false → asError v = false → tokOf (wrapF s f v).1.T s.h.size = some { creator := f, site := s.sites }) ∧
+    (isNil v = false → isRef v = false →
+      tokOf (wrapTypedF s f v).1.T s.h.size = some { creator := f, site := s.sites }) := by
+  refine ⟨?_, ?_, ?_, ?_, ?_⟩
+  · simp [newF, tokOf, FHeap.capture, ← hT]
+  · simp [newWithCauseF, tokOf, FHeap.capture, ← hT]
+  · simp [newEmptyF, tokOf, ← hT]
+  · intro h1 h2; simp [wrapF, h1, h2, tokOf, FHeap.capture, ← hT]
+  · intro h1 h2; simp [wrapTypedF, h1, h2, tokOf, FHeap.capture, ← hT]
+
+/-- **a copy keeps the ORIGINAL stack**: `CloneWithPrefixMessage` and the elements of `WrappedErrors()` carry the stack of
+    the cell they were copied from (unfoldings of the transcription) -/
+theorem copy_keeps_stack (s : FHeap) (id k : Nat) (pre : String) (hT : s.T.size = s.h.size) (hid : id < s.h.size) :
+    tokOf (cloneF s (.ref id) pre).1.T s.h.size = tokOf s.T id ∧
+    ((elem s.h (.ref id) k).1.size ≠ s.h.size →
+      tokOf (elemF s (.ref id) k).1.T s.h.size =
+        (match (chain s.h (fuelOf s.h) id)[k]? with | some j => tokOf s.T j | none => none)) := by
+  refine ⟨?_, ?_⟩
+  · have hsz : (clone s.h (.ref id) pre).1.size ≠ s.h.size := by
+      simp [clone, Array.getElem?_eq_getElem hid]
+    simp only [cloneF, hsz, if_false]
+    exact tokOf_push_self _ _ _ hT
+  · intro hsz
+    simp only [elemF, hsz, if_false]
+    exact tokOf_push_self _ _ _ hT
+
+/-- **the stacks along the result of `Append` onto an existing error**: the accumulator's own stacks, then those of the
+    arguments in order — a copied `*Error` argument keeps the stacks of its source cells, every wrapped plain error
+    carries a stack captured by this call (`argsToks`) -/
+theorem append_stacks (h : Heap) (T : Toks) (f c : Nat) (id : Nat) (args : List Val) (hwf : WF h)
+    (hT : T.size = h.size) (hid : id < h.size) (hne : isEmpty h id = false)
+    (hargs : ∀ id', Val.ref id' ∈ args → id' < h.size ∧ tailOf h (fuelOf h) id ∉ chain h (fuelOf h) id') :
+    (appendFx h T f c (.ref id) args).2.1 = some id ∧
+    chainToks (appendFx h T f c (.ref id) args).1 (appendFx h T f c (.ref id) args).2.2.2.1 id =
+      chainToks h T id ++ argsToks h T f c args :=
+  append_stacks_ref h T f c id args hwf hT hid hne hargs
+
+/-- … and of `Append` onto nothing (a nil `*Error`, a typed nil or an empty error as accumulator): exactly the stacks of
+    the arguments -/
+theorem append_stacks_fresh (h : Heap) (T : Toks) (f c : Nat) (acc : Val) (args : List Val) (hwf : WF h)
+    (hT : T.size = h.size) (hacc : acc = .typedNil ∨ acc = .foreignNil ∨ ∃ id, acc = .ref id ∧ isEmpty h id = true)
+    (hargs : ∀ id', Val.ref id' ∈ args → id' < h.size) :
+    match (appendFx h T f c acc args).2.1 with
+    | none => argsToks h T f c args = []
+    | some r => chainToks (appendFx h T f c acc args).1 (appendFx h T f c acc args).2.2.2.1 r = argsToks h T f c args :=
+  append_stacks_none h T f c acc args hwf hT hacc hargs
+
+/-- **the `Caused by` structure of `%v`/`%+v`** (unfolding of the transcription of `StackTrace`): an error with a cause
+    that is not merely wrapped renders its own stack, then `Caused by:` and the cause's full `Detail` (an `*Error` cause)
+    or its `Error()` text (a foreign cause); a wrapping error (`Wrap`, `WrapTyped`, a plain error inside `Append`) and an
+    error without a cause render their own stack only -/
+theorem caused_by_structure (h : Heap) (T : Toks) (fuel id : Nat) (n : ENode) (hn : h[id]? = some n) :
+    (n.cause = .nilIface ∨ n.wrapped = true → stackC h T (fuel + 1) id = tokText (tokOf T id)) ∧
+    (∀ c, n.cause = .ref c → n.wrapped = false →
+      stackC h T (fuel + 1) id =
+        tokText (tokOf T id) ++ "\n  Caused by: " ++ detailOf (message h c) (stackC h T fuel c)) ∧
+    (∀ u m, n.cause = .plain u m → n.wrapped = false →
+      stackC h T (fuel + 1) id = tokText (tokOf T id) ++ "\n  Caused by: " ++ m) := by
+  refine ⟨?_, ?_, ?_⟩
+  · intro hc
+    rcases hc with hc | hc <;> simp [stackC, hn, hc]
+  · intro c hc hw; simp [stackC, hn, hc, hw]
+  · intro u m hc hw; simp [stackC, hn, hc, hw, errorText]
 
 /-! non-vacuity: a concrete well-formed heap (`x`, the aggregate `{a1, a2}`, `y`), the call `Append(x, {a1,a2}, nil,
     (*Error)(nil), plain "p", y)` satisfies every hypothesis and yields the five errors in order -/
